@@ -179,6 +179,8 @@ def main():
         rc = 1
     wall = time.monotonic() - t0
     meta = mod.META
+    if not agg['samples']:
+        agg['samples'] = [{'note': 'no worker recorded a sample case', 'shards': [s.get('name') for s in shards[:3]]}]
     cov = {
         'evaluations': agg['evaluations'],
         'distinct_nontrivial': agg['nontrivial'],
